@@ -1,7 +1,7 @@
 CONSTANTS
-  NK = 5
+  NK = 7
   NV = 1
-  MaxLen = 7
+  MaxLen = 11
   Reads <- ReadsNone
   Lims <- Lims0
   Grow = 0
